@@ -201,6 +201,31 @@ def workarray_fails(case):
     return None
 
 
+def workarray_model_mismatch(ctx, case):
+    """the sequence of values of a graph with a hand-wrapped accumulator (cells: 0 = acc, 1 = x, 2 = x*x; writes acc += x,
+    acc += x*x; output acc) over a history of evaluations, against the executable model `accHistory` with the undo step"""
+    from fractions import Fraction
+    rec, calls = case['rec'], case['calls']
+    cg = algopy.CGraph()
+    fx = algopy.Function(np.array([float(rec)]))
+    acc = algopy.Function(np.zeros(1))
+    acc += fx
+    acc += fx * fx
+    cg.trace_off()
+    cg.independentFunctionList = [fx]
+    cg.dependentFunctionList = [acc]
+    got = []
+    for c in calls:
+        got.append(float(np.asarray(cg.function([np.array([float(c)])])[0]).ravel()[0]))
+    fr = lambda v: str(Fraction(v))
+    m = ctx.model.ask({'op': 'workarray', 'undo': True, 'ws': [[0, 1], [0, 2]], 'h0': ['0', '0', '0'], 'rec': [[1, fr(rec)], [2, fr(rec * rec)]],
+                       'calls': [[[1, fr(c)], [2, fr(c * c)]] for c in calls], 'out': 0})['r']
+    want = [float(Fraction(v)) for v in m]
+    if not np.allclose(got, want, rtol=1e-12, atol=1e-13):
+        return 'workarray-model: the values over the history %s are %s, the model of the evaluation with undo gives %s' % (calls, got, want)
+    return None
+
+
 def history_fails(case):
     prog, N = case['prog'], case['N']
     try:
@@ -332,6 +357,8 @@ def replay_case(ctx, case):
         return inplace_program_fails(case['inplace_program'], case['pt'], case['v'])
     if case.get('op') == 'workarray':
         return workarray_fails(case)
+    if case.get('op') == 'workarray-model':
+        return workarray_model_mismatch(ctx, case)
     return history_fails(case)
 
 
@@ -354,6 +381,13 @@ def run(ctx):
             f = workarray_fails(case)
             if f:
                 ctx.report(case, 'failure', f)
+    for i in range(6 if ctx.tier == 'quick' else 60):
+        case = {'op': 'workarray-model', 'rec': rng.choice([0.5, -1.5, 2.0]), 'calls': [rng.choice([0.5, -0.25, 1.5, 2.0, -1.0]) for _ in range(rng.randint(2, 5))]}
+        ctx.evaluations += 1
+        ctx.count('work-array-model-tie')
+        f = workarray_model_mismatch(ctx, case)
+        if f:
+            ctx.report(case, 'disagreement', f)
     names2 = ['gradient', 'jacobian', 'jacobian-utpm', 'hess_vec', 'jacobian-utpm-same-object']
     for i in range(12 if ctx.tier == 'quick' else 120):
         order = (['jacobian-utpm-same-object'] * 3) if i == 0 else [rng.choice(names2) for _ in range(rng.randint(2, 5))]
